@@ -424,6 +424,9 @@ func (w *world) deleteUsed(tp *sim.Tape) {
 				if had && !has {
 					if l.Actor == "usage-controller" {
 						sig += "/marker-removed-by-concurrent-usage-deletion"
+						if w.retriedWrite(l) {
+							sig += "/on-a-retry-within-one-reconcile"
+						}
 					}
 					break
 				}
@@ -498,6 +501,19 @@ func hasFin(m map[string]any, f string) bool {
 	return false
 }
 
+// retriedWrite: the reconcile that committed write l had already had a write
+// to the same object fail (a conflict, say) - it went on with what it had
+// learned before that failure instead of looking again.
+func (w *world) retriedWrite(l *simapi.LogEntry) bool {
+	for i := l.Seq - 1; i >= 0 && i > l.Seq-400; i-- {
+		p := w.Store.Log[i]
+		if p.TaskID == l.TaskID && p.Key == l.Key && !p.Read && (p.Err != nil || p.Injected != "") {
+			return true
+		}
+	}
+	return false
+}
+
 // onLog: ordering oracles on committed writes of the usage controller.
 func (w *world) onLog(e *simapi.LogEntry) {
 	if e.Read || e.Injected != "" || e.DryRun || e.Err != nil || e.Actor != "usage-controller" {
@@ -527,6 +543,9 @@ func (w *world) onLog(e *simapi.LogEntry) {
 					if had && !has {
 						if l.TaskID != e.TaskID && l.Actor == "usage-controller" {
 							sig += "/removed-by-concurrent-usage-deletion"
+							if w.retriedWrite(l) {
+								sig += "/on-a-retry-within-one-reconcile"
+							}
 						}
 						break
 					}
